@@ -422,6 +422,12 @@ func (e *Env) monitorStaking(st *Step, f []string, kind string, ok bool, src []s
 			st.fail("C10", cls, "native stake or status changed on '%s' but no rebalance is queued", st.Src)
 		}
 	}
+	// C11: virtual tokens exist only as stake: the bonded pool holds exactly the tokens of the bonded validators
+	// (x/staking's own pool invariant; alliance mints+delegates and unbonds+burns against that pool)
+	if kind != "env" && ok && post.BondedTokensAll != nil && pre.BondedTokensAll != nil &&
+		pre.Bal(AccBonded, bond).Cmp(pre.BondedTokensAll) == 0 && post.Bal(AccBonded, bond).Cmp(post.BondedTokensAll) != 0 {
+		st.fail("C11", "bonded_pool_mismatch", "bonded pool holds %s but bonded validators carry %s tokens", post.Bal(AccBonded, bond), post.BondedTokensAll)
+	}
 	// C11: net staking-denom supply is conserved by alliance operations
 	if kind != "env" && kind != "slash" && ok {
 		net := func(s *State) *big.Rat {
@@ -513,8 +519,14 @@ func (e *Env) monitorValues(st *Step, f []string, kind string, ok bool) {
 	if kind == "undelegate" || kind == "redelegate" {
 		u, v := atoi(f[1]), atoi(f[2])
 		if p0 := pre.Del(u, v, d); p0 != nil && post.Del(u, v, d) == nil {
-			if b := pre.valueQ(p0); b != nil && new(big.Rat).Sub(b, rat(amt)).Cmp(tol) > 0 {
-				rounderFull = true
+			if b := pre.valueQ(p0); b != nil && b.Sign() > 0 && new(big.Rat).Sub(b, rat(amt)).Cmp(tol) > 0 {
+				// the known finding is the 0.01-SHARE snap of ValidateDelegatedAmount: the forfeited remainder,
+				// measured in delegator shares, is below 0.01 (plus one ulp of slack); anything larger is new
+				left := new(big.Rat).Sub(b, rat(amt))
+				leftShares := new(big.Rat).Mul(new(big.Rat).SetFrac(p0.Shares, bigP), new(big.Rat).Quo(left, b))
+				if leftShares.Cmp(big.NewRat(1001, 100000)) < 0 {
+					rounderFull = true
+				}
 			}
 		}
 	}
